@@ -7,7 +7,7 @@
    denotations), GV.Front.LexStr (string literal denotations).  [parse] is the
    extracted function, fuel 8*|ts|+8. *)
 From Coq Require Import NArith ZArith List.
-From GV Require Import Front.Token Front.Parse Front.Print Front.Proofs Front.RoundTrip Front.RoundTripMain Front.Exact Front.Lex Front.LexProofs Front.LexStr Front.LexStrProofs.
+From GV Require Import Front.Token Front.Parse Front.Print Front.Proofs Front.RoundTrip Front.RoundTripMain Front.Exact Front.ErrPos Front.Lex Front.LexProofs Front.LexStr Front.LexStrProofs.
 Import ListNotations.
 
 (* parse ∘ print: for EVERY expression tree over all 21 binary and 4 unary
@@ -43,6 +43,13 @@ Theorem C12_error_at_first_extra_token :
   parse (print e ++ t :: junk) = Err (t :: junk).
 Proof. exact error_at_extra_token. Qed.
 Print Assumptions C12_error_at_first_extra_token.
+
+(* whenever [parse] reports an error, it reports it AT a token of the input
+   (or its end): the offending token is determined, hence so is its line *)
+Theorem C12_first_error_token_line :
+  forall ts rest, parse ts = Err rest -> exists pre, ts = pre ++ rest.
+Proof. exact first_error_token. Qed.
+Print Assumptions C12_first_error_token_line.
 
 (* ast.NewBinOp's same-precedence list merging loses nothing: the merged node
    denotes the left-nested binary tree (what the harness compares). *)
